@@ -230,10 +230,14 @@ def evaluate(texts, spacing, first, base_us=0):
         if len(caps) != len(cues):
             v.append(("caption-count(SCCReader)", {"got": len(caps), "want": len(cues)}))
         else:
-            for i, (c, (_, _, in_lines)) in enumerate(zip(caps, cues)):
+            for i, (c, (in_start, _, in_lines)) in enumerate(zip(caps, cues)):
                 kind = word_compare([w for l in in_lines for w in l.split()], c.get_text().split())
                 if kind:
                     v.append((kind + "(SCCReader)", {"cue": i, "in": in_lines, "out": c.get_text()}))
+                # ... and read back, the caption appears within three frames of its start time as well
+                if spacing == "sparse" and abs(Fraction(c.start) - in_start) > 3 * FRAME + FRAME / 2:
+                    v.append(("reread-start-off-by-more-than-three-frames", {"cue": i, "start": in_start, "reread_start": c.start}))
+                    break
     except Exception as e:  # noqa
         v.append((f"reread-raises:{type(e).__name__}", {"err": str(e)[:300]}))
     for kind, det in v:
